@@ -136,14 +136,24 @@ def doDiscr (l : Line) : Option String := do
   let shift := (r.gridMin - a.gridMin) / a.cell
   some s!"ok lo={showRat r.lo} hi={showRat r.hi} cell={showRat r.cell} shift={showRat shift}"
 
-/-- `opadj mode=M m=.. n=.. off=.. fl=R fr=R gl=R gr=R data=…`: `ResizingOperator.adjoint` on one
-axis, range of length `m` with boundary-cell fractions `(fl, fr)`, domain of length `n` with
-`(gl, gr)`. -/
+def parseWeighting (s : String) : Option (Weighting Rat) :=
+  match s.splitOn ":" with
+  | ["const", v] => (parseRat v).map Weighting.const
+  | ["array", v] => (parseRatList v).map fun l =>
+      let arr := l.toArray
+      Weighting.array (fun i => arr.getD i 0)
+  | _ => none
+
+/-- `opadj mode=M m=.. n=.. off=.. wr=<const:R|array:…> fl=R fr=R wd=<…> gl=R gr=R data=…`:
+`ResizingOperatorAdjoint._call` on one axis (`opAdjointW`), range of length `m` with weighting
+`wr` and boundary-cell fractions `(fl, fr)`, domain of length `n` with `wd`, `(gl, gr)`. -/
 def doOpAdj (l : Line) : Option String := do
   let mode ← l.get? "mode" >>= parseMode
   let m ← l.nat? "m"
   let n ← l.nat? "n"
   let off ← l.nat? "off"
+  let wr ← l.get? "wr" >>= parseWeighting
+  let wd ← l.get? "wd" >>= parseWeighting
   let fl ← l.rat? "fl"
   let fr ← l.rat? "fr"
   let gl ← l.rat? "gl"
@@ -151,11 +161,59 @@ def doOpAdj (l : Line) : Option String := do
   let data ← l.rats? "data"
   if data.length ≠ m then none
   if gl = 0 || gr = 0 then none
+  if (List.range n).any (fun j => wd.at j = 0) then none
   let arr := data.toArray
   let y : Nat → Rat := fun i => arr.getD i 0
-  match opAdjoint1d mode m n off (bdryFrac 1 m fl fr) (bdryFrac 1 n gl gr) y with
+  match opAdjointW mode m n off wr (bdryFrac 1 m fl fr) wd (bdryFrac 1 n gl gr) y with
   | .error e => some (showErr e)
   | .ok r => some s!"ok r={showRatList ((List.range n).map r)}"
+
+/-- `opadjnd mode=M shape=<range shape> newshape=<domain shape> off=… wr=<C-order weights of the
+range> wd=<… of the domain> data=…`: the model's `opAdjointND`. -/
+def doOpAdjND (l : Line) : Option String := do
+  let mode ← l.get? "mode" >>= parseMode
+  let sOut ← l.nats? "shape"
+  let sIn ← l.nats? "newshape"
+  let offs ← l.nats? "off"
+  let wr ← l.rats? "wr"
+  let wd ← l.rats? "wd"
+  let data ← l.rats? "data"
+  if sIn.length ≠ sOut.length || sIn.length ≠ offs.length then none
+  let nOut := sOut.foldl (· * ·) 1
+  let nIn := sIn.foldl (· * ·) 1
+  if data.length ≠ nOut || wr.length ≠ nOut || wd.length ≠ nIn then none
+  if wd.any (· = 0) then none
+  let arr := data.toArray
+  let wra := wr.toArray
+  let wda := wd.toArray
+  let Y : List Nat → Rat := fun idx => arr.getD (flatIdx sOut idx) 0
+  let WR : List Nat → Rat := fun idx => wra.getD (flatIdx sOut idx) 0
+  let WD : List Nat → Rat := fun idx => wda.getD (flatIdx sIn idx) 1
+  match checkND mode .adjoint (0 : Rat) sOut sIn offs with
+  | some e => some (showErr e)
+  | none =>
+    let R := opAdjointND mode sOut sIn offs WR WD Y
+    some s!"ok r={showRatList ((allIdx sIn).map R)}"
+
+/-- `offsp lo= hi= n= bl= br= rlo= rhi= rn= rbl= rbr=`: `_offset_from_spaces` for one axis. -/
+def doOffSp (l : Line) : Option String := do
+  let lo ← l.rat? "lo"
+  let hi ← l.rat? "hi"
+  let n ← l.nat? "n"
+  let bl ← l.bool? "bl"
+  let br ← l.bool? "br"
+  let rlo ← l.rat? "rlo"
+  let rhi ← l.rat? "rhi"
+  let rn ← l.nat? "rn"
+  let rbl ← l.bool? "rbl"
+  let rbr ← l.bool? "rbr"
+  if n = 0 || rn = 0 then none
+  let dom : Axis Rat := ⟨lo, hi, n, bl, br⟩
+  if dom.cell = 0 then none
+  match offsetFromAxes dom ⟨rlo, rhi, rn, rbl, rbr⟩ with
+  | .ok k => some s!"ok off={k}"
+  | .error .notMultiple => some "err:shift-not-multiple"
+  | .error .notContained => some "err:not-contained"
 
 def handle (l : Line) : Option String :=
   match l.op with
@@ -164,6 +222,8 @@ def handle (l : Line) : Option String :=
   | "nppad" => doNpPad l
   | "discr" => doDiscr l
   | "opadj" => doOpAdj l
+  | "opadjnd" => doOpAdjND l
+  | "offsp" => doOffSp l
   | _ => none
 
 def main : IO Unit := driverLoop handle
